@@ -561,7 +561,7 @@ def run_generic(root, prop, tier, seed, res, cfg=None, extra_props=()):
     eng.prepare()
     for (family, mode, qn, tn, per_bin, qenv, tenv) in cfg["parts"]:
         # VP_SCALE multiplies the number of definitions (default: quick x1.5, thorough x2)
-        scale = float(os.environ.get("VP_SCALE", "1.5" if tier == "quick" else "2"))
+        scale = float(os.environ.get("VP_SCALE", str(cfg.get("quick_scale", 1.5)) if tier == "quick" else "2"))
         n = int((qn if tier == "quick" else tn) * scale)
         n = max(per_bin, (n // per_bin) * per_bin)
         penv = qenv if tier == "quick" else tenv
